@@ -21,9 +21,11 @@ CLAIMED = {
         "Every module shape of the alphabet (2-3 code/data blocks, two interval partitions, 5 ISA/format targets) x every "
         "non-overlapping set of <= N edit atoms at every instruction boundary x registration orders is applied with the real "
         "RewritingContext; section bytes must equal the bytes of the listing edited by plain list surgery, with expected patch "
-        "bytes taken from an instruction table validated against capstone (not from the Assembler). Complete for the stated bound.",
+        "bytes taken from an instruction table validated against capstone (not from the Assembler). Raw layouts the listing cannot "
+        "express - blocks that overlap, intervals with an uninitialized tail - are checked against a section image spliced by absolute "
+        "address. Complete for the stated bound.",
         LISTING_NOTE,
-        "DESIGN.md 3, 6/C01",
+        "DESIGN.md 3, 6/C01, 12",
     ),
     "C02": (
         "model_checking",
@@ -70,7 +72,8 @@ CLAIMED = {
         "The directive table before and after the rewrite is evaluated with vf/cfimodel.py (written from DWARF 6.4): clean evaluation is preserved, "
         "startproc/endproc/remember/restore are neither lost nor duplicated (whole procedures without survivors may vanish), every surviving "
         "instruction stays inside/outside a procedure, and without deletions the unwind state at every original and patch instruction equals "
-        "the state of the edited listing (state at the insertion point plus the patch's own directives). The library's evaluator must accept the result too.",
+        "the state of the edited listing (state at the insertion point plus the patch's own directives); procedures must partition survivors and patch "
+        "code the way they do in the edited listing. Tables are also fed in descending offset order. The library's evaluator must accept the result too.",
         LISTING_NOTE,
         "DESIGN.md 3, 6/C08",
     ),
@@ -81,9 +84,10 @@ CLAIMED = {
         "x argument styles are split and re-joined: blocks keep bytes/addresses/annotations, groups get their own interval, a fully initialized "
         "interval is restored exactly, otherwise only whole-nop/zero padding appears; an empty apply() must leave a canonical UUID-free dump of "
         "every module shape used by the other checks unchanged; aligned blocks stay aligned after single modifications and the bytes differ from "
-        "the model only by padding in front of aligned blocks.",
+        "the model only by padding in front of aligned blocks; one module object is taken through every history of <= H events {empty apply, "
+        "split+join, annotate, tables replaced, tables dropped} and its annotations are read back by absolute address after every event.",
         LISTING_NOTE,
-        "DESIGN.md 6/C10",
+        "DESIGN.md 6/C10, 12",
     ),
     "C05": (
         "fault_enumeration",
@@ -159,7 +163,8 @@ CLAIMED = {
         "explicit-state BFS over directive histories (35 events per ABI incl. location events); every transition runs the real evaluate_cfi_directives on a fresh module and is compared with an independent reference interpreter",
         "The reachable state graph of the reference CFI interpreter (vf/cfimodel.py, written from DWARF 6.4) is explored breadth-first to the depth "
         "bound; for every history the real evaluator must yield the same (block, offset, state) sequence, raise CFIStateError/ValueError at the "
-        "same step for ill-formed histories and nothing else, and copies taken at yield time must stay equal to their snapshot. X64, ARM64 and "
+        "same step for ill-formed histories and nothing else, and copies taken at yield time must stay equal to their snapshot. The canonical "
+        "state keeps the closing state of the previous procedure as a ghost component, so two-procedure histories are not merged. X64, ARM64 and "
         "big-endian MIPS32 ELF.",
         "Trusted: the reference interpreter. PE ABIs define no DWARF return column and are out of scope; ARM64/MIPS32 are searched one event shallower than X64.",
         "DESIGN.md 6/C15",
@@ -170,7 +175,8 @@ CLAIMED = {
         "For 5 ABIs x clobber subsets x flags x align_stack x preserve_caller_saved x scratch counts x reads x leaf/non-leaf x initial SP alignments the code "
         "is generated through a real RewritingContext.insert_at/apply, decoded with capstone and run on vf/machine (any instruction outside the modelled "
         "subset is a hard error); at the marker every declared resource is poisoned; afterwards registers, flags and SP must be restored, no write at or "
-        "above SP or into the red zone, every read slot written by this code, scratch registers well-formed, stack_adjustment exact, body SP aligned.",
+        "above SP or into the red zone, every read slot written by this code, scratch registers well-formed, stack_adjustment exact, body SP aligned. "
+        "Every ordered pair (thorough: triple) of ABIs is additionally run in one fresh interpreter (process history).",
         "Trusted: capstone, the machine models (self-checked on hand-encoded snippets). Register power sets by representatives in quick, 2^14 x86-64 subsets in thorough.",
         "DESIGN.md 6/C16",
     ),
